@@ -191,6 +191,7 @@ func cmdReplay(args []string) error {
 	cf := fs.String("cases", "cases.ndjson", "cases printed by TLC, one JSON object per line")
 	of := fs.String("out", "replay.json", "result file")
 	lits := fs.String("lits", "auto", "comma separated literal styles to render every tree in (auto, raw, bare, dq)")
+	sels := fs.String("sels", "auto", "comma separated selector spellings to render every tree in (auto, bracket, backtick, pointer)")
 	fs.Parse(args)
 	w, docs, cfgs, err := loadWorld(*wf)
 	if err != nil {
@@ -218,8 +219,14 @@ func cmdReplay(args []string) error {
 			return err
 		}
 		seen := map[string]bool{}
-		for si, ls := range strings.Split(*lits, ",") {
-			text, err := expr.Render(tree, expr.Style{Lit: ls})
+		var stys []expr.Style
+		for _, ls := range strings.Split(*lits, ",") {
+			for _, ss := range strings.Split(*sels, ",") {
+				stys = append(stys, expr.Style{Lit: ls, Sel: ss})
+			}
+		}
+		for si, sty := range stys {
+			text, err := expr.Render(tree, sty)
 			if err != nil {
 				if si == 0 {
 					out.Skipped++
